@@ -133,6 +133,23 @@ def gen_source(rng):
             "parse_qq": rng.random() < 0.8}
 
 
+def gen_shape(rng, n_src, depth):
+    """A nested selection: leaves are sources (as they are, as a new
+    TractList, or one single Tract of theirs), nodes are sequences."""
+    def leaf():
+        return {"leaf": rng.randrange(n_src),
+                "via": rng.choice(("obj", "tl", "tract", "tract")),
+                "j": rng.randrange(8)}
+    items = []
+    for _ in range(rng.randint(1, 4)):
+        if depth < 2 and rng.random() < 0.3:
+            items.append(gen_shape(rng, n_src, depth + 1))
+        else:
+            items.append(leaf())
+    return {"seq": items,
+            "as": rng.choice(("list", "list", "tuple", "iter", "gen"))}
+
+
 def gen_plan(rng):
     n_src = rng.randint(2, 4)
     sources = [gen_source(rng) for _ in range(n_src)]
@@ -168,6 +185,10 @@ def gen_plan(rng):
                     rng.randrange(n_src),
                     [rng.randrange(n_src) for _ in range(rng.randint(1, 3))],
                     None))
+                if rng.random() < 0.35:
+                    # a mixed, nested container: single Tracts, PLSSDesc /
+                    # TractList objects and inner sequences side by side
+                    srcsel = {"shape": gen_shape(rng, n_src, 0)}
                 ops.append({"op": "tw_write", "w": w, "src": srcsel,
                             "plus": "auto",
                             "as": rng.choice(("list", "list", "iter", "tuple"))})
@@ -385,9 +406,44 @@ class Runner:
             self.bump("nice_headers_object_reused")
         return self.nice_objs[key]
 
+    def shape_tracts(self, spec):
+        if "seq" in spec:
+            out = []
+            for x in spec["seq"]:
+                out += self.shape_tracts(x)
+            return out
+        ts = tracts_of(self.pytrs, self.srcs[spec["leaf"] % len(self.srcs)])
+        if spec["via"] == "tract" and ts:
+            return [ts[spec["j"] % len(ts)]]
+        return ts
+
+    def shape_obj(self, spec):
+        if "seq" in spec:
+            items = [self.shape_obj(x) for x in spec["seq"]]
+            how = spec["as"]
+            if how == "tuple":
+                return tuple(items)
+            if how == "iter":
+                self.bump("write_given_an_iterator")
+                return iter(items)
+            if how == "gen":
+                self.bump("write_given_an_iterator")
+                return (x for x in items)
+            return items
+        src = self.srcs[spec["leaf"] % len(self.srcs)]
+        ts = tracts_of(self.pytrs, src)
+        if spec["via"] == "tract" and ts:
+            self.bump("write_given_single_tract_in_container")
+            return ts[spec["j"] % len(ts)]
+        if spec["via"] == "tl":
+            return self.pytrs.TractList(ts)
+        return src
+
     def src_tracts(self, sel):
         if sel is None:
             return None
+        if isinstance(sel, dict):
+            return self.shape_tracts(sel["shape"])
         if isinstance(sel, list):
             out = []
             for i in sel:
@@ -398,6 +454,9 @@ class Runner:
     def src_obj(self, sel):
         if sel is None:
             return None
+        if isinstance(sel, dict):
+            self.bump("write_nested_mixed_container")
+            return self.shape_obj(sel["shape"])
         if isinstance(sel, list):
             return [self.srcs[i % len(self.srcs)] for i in sel]
         return self.srcs[sel % len(self.srcs)]
@@ -1305,6 +1364,25 @@ def shrink(plan):
             p2 = copy.deepcopy(plan)
             p2["ops"][k]["src"] = op["src"][0]
             yield p2
+        if isinstance(op.get("src"), dict):
+            shape = op["src"]["shape"]
+            p2 = copy.deepcopy(plan)          # plain selection instead
+            p2["ops"][k]["src"] = 0
+            yield p2
+            for j in range(len(shape["seq"])):
+                if len(shape["seq"]) > 1:     # drop one item
+                    p2 = copy.deepcopy(plan)
+                    del p2["ops"][k]["src"]["shape"]["seq"][j]
+                    yield p2
+                if "seq" in shape["seq"][j]:  # flatten one inner sequence
+                    p2 = copy.deepcopy(plan)
+                    inner = p2["ops"][k]["src"]["shape"]["seq"][j]["seq"]
+                    p2["ops"][k]["src"]["shape"]["seq"][j:j + 1] = inner
+                    yield p2
+            if shape["as"] != "list":
+                p2 = copy.deepcopy(plan)
+                p2["ops"][k]["src"]["shape"]["as"] = "list"
+                yield p2
     for j, s in enumerate(plan["sources"]):
         simple = {"kind": "desc", "text": "T154N-R97W Sec 14: Lots 1, 1, NE/4",
                   "config": None, "parse_qq": True, "source": None}
